@@ -215,3 +215,22 @@ B('d_b_static_helper_raw_fallback', ['C09'], 'R09.c',
   (E, "    def to_escaped_dict(self):\n" + _ESC_LOOP,
       _STATIC_HELPER.replace("escaped = html_escape(repr(value), True)", "escaped = repr(value)") +
       "    def to_escaped_dict(self):\n        return {k: self._safe_text(v) for k, v in self.to_dict().items()}\n"))
+T('d_t_html_head_lines_method', ['C09', 'C08'],
+  (E, "    def to_html(self):\n        params = self.to_escaped_dict()\n" + _HTML_HEAD,
+      "    def _head_lines(self):\n        return ['<!doctype html><html>',\n                '<head><title>{code} - {message}</title></head>',\n"
+      "                '<body><h1>{message}</h1>']\n\n    def to_html(self):\n        params = self.to_escaped_dict()\n        lines = self._head_lines()\n"))
+T('d_t_adapt_get_falsy', ['C09'],
+  (E, _ADAPT_LOOKUP, "        fmt_name = MIME_SUPPORT_MAP.get(mimetype)\n        if not fmt_name:\n            fmt_name, mimetype = 'text', DEFAULT_MIME\n"))
+T('d_t_negotiate_over_key_list', ['C09'],
+  (E, _RENDER_ERROR, "        best_match = request.accept_mimetypes.best_match(list(MIME_SUPPORT_MAP.keys()))\n        _error.adapt(mimetype=best_match)\n"
+                     "        return _error\n\n    def uncaught_to_response"))
+T('d_t_escaped_loop_ifexp_method', ['C09', 'C08'],
+  (E, "    def to_escaped_dict(self):\n" + _ESC_LOOP,
+      "    def _esc(self, v):\n        try:\n            return html_escape(v, True)\n        except Exception:\n            return html_escape(repr(v), True)\n\n"
+      "    def to_escaped_dict(self):\n        ret = {}\n        for k, v in self.to_dict().items():\n            ret[k] = '' if v is None else self._esc(v)\n        return ret\n"))
+T('d_t_adapt_key_normalised_first', ['C09'],
+  (E, _ADAPT_LOOKUP, "        if mimetype not in MIME_SUPPORT_MAP:\n            mimetype = 'text/plain'\n        fmt_name = MIME_SUPPORT_MAP[mimetype]\n"))
+B('d_b_adapt_key_normalised_only_falsy', ['C09'], 'R09.b',
+  (E, _ADAPT_LOOKUP, "        if not mimetype:\n            mimetype = 'text/plain'\n        fmt_name = MIME_SUPPORT_MAP[mimetype]\n"))
+B('d_b_adapt_key_normalised_to_html', ['C09'], 'R09.b',
+  (E, _ADAPT_LOOKUP, "        if mimetype not in MIME_SUPPORT_MAP:\n            mimetype = 'text/html'\n        fmt_name = MIME_SUPPORT_MAP[mimetype]\n"))
